@@ -72,8 +72,10 @@ ROWS = {
                    "a store inside the CONDITION of an If/While that starts the then-arm of an enclosing If, and a load after the outer If"),
     "C17r2-mutB": ("pyteal/compiler/scratchslots.py collectScratchSlots: slots whose index is taken count as global",
                    "a variable passed by reference (or targeted by a DynamicScratchVar) only conditionally and then loaded directly"),
-    "C18r2-mutA": None,
-    "C18r2-mutB": None,
+    "C18r2-mutA": ("pyteal/compiler/optimizer/optimizer.py _has_load_dependencies skips the paired load by position in every block",
+                   "slot optimisation on; a store/load pair at index p of one block and the only other load of the variable at index p of another block once a comment / nonce shifted it"),
+    "C18r2-mutB": ("pyteal/compiler/flatten.py flattenBlocks: `bz` instead of `bnz` when neither successor is adjacent",
+                   "If(c).Then(Break()) ending a While body that is followed by branching code: wrong without the annotation, right with Comment(.., Break())"),
     "C19r2-mutA": ("pyteal/ast/abi/string.py String.set accepts any dynamic array whose _stride() is 1",
                    "String().set(value of bool[]) with two or more elements"),
     "C19r2-mutB": ("pyteal/ast/abi/type.py ReturnedValue.store_into compares storage types only",
